@@ -219,6 +219,17 @@ func runBehaviour(idx int, beh behaviour, opt options) ([]*caseRec, *behRec) {
 		nk = []int{1, 3, 100}[rng.Intn(3)]
 	}
 	keys, klist := makeKeys(rng, nk, opt.seed+int64(idx), opt.cipher)
+	for _, sc := range beh.Sc {
+		if sc.Hs == "replayS" {
+			markable := false
+			for _, k := range keys {
+				markable = markable || k.key.SaltSize() >= 20
+			}
+			if !markable { // 16-byte salts carry no server mark: the reflected replay needs another cipher
+				keys, klist = makeKeys(rng, nk, opt.seed+int64(idx), cipherNames[rng.Intn(3)])
+			}
+		}
+	}
 	ciphers := service.NewCipherList()
 	ciphers.Update(klist)
 	needReplay := false
